@@ -363,6 +363,7 @@ func (c *Ctx) contraNil(rule string, fi *FuncInfo, clause string) int {
 		return f(e, neg)
 	}
 	reported := map[types.Object]bool{}
+	flows := map[types.Object]*nilFlowResult{}
 	walkStack(fi.Decl.Body, func(m ast.Node, stack []ast.Node) bool {
 		sel, ok := m.(*ast.SelectorExpr)
 		if !ok {
@@ -424,27 +425,50 @@ func (c *Ctx) contraNil(rule string, fi *FuncInfo, clause string) int {
 				return true
 			}
 		}
-		// assigned (possibly non-nil) between the test and here on this path: `if x == nil { x = ... }` idiom
-		assignedBefore := false
-		ast.Inspect(fi.Decl.Body, func(q ast.Node) bool {
-			if as, ok := q.(*ast.AssignStmt); ok && as.Pos() < sel.Pos() {
-				for _, l := range as.Lhs {
-					if identObj(info, l) == o {
-						assignedBefore = true
-					}
+		// flow: is the pointer known non-nil here (assigned a value, or a successful test on every path)?
+		inLit := false
+		for _, a := range stack {
+			if _, isLit := a.(*ast.FuncLit); isLit {
+				inLit = true
+			}
+		}
+		decided := false
+		if !inLit {
+			fl := flows[o]
+			if fl == nil {
+				fl = c.nilFlow(info, fi.Decl.Body, o, false)
+				flows[o] = fl
+			}
+			if nn, okf := fl.at(sel.Pos()); okf {
+				decided = true
+				if nn {
+					return true
 				}
 			}
-			if rs, ok := q.(*ast.RangeStmt); ok && rs.Pos() < sel.Pos() {
-				for _, l := range []ast.Expr{rs.Key, rs.Value} {
-					if l != nil && identObj(info, l) == o {
-						assignedBefore = true
+		}
+		if !decided {
+			// assigned (possibly non-nil) between the test and here on this path: `if x == nil { x = ... }` idiom
+			assignedBefore := false
+			ast.Inspect(fi.Decl.Body, func(q ast.Node) bool {
+				if as, ok := q.(*ast.AssignStmt); ok && as.Pos() < sel.Pos() {
+					for _, l := range as.Lhs {
+						if identObj(info, l) == o {
+							assignedBefore = true
+						}
 					}
 				}
+				if rs, ok := q.(*ast.RangeStmt); ok && rs.Pos() < sel.Pos() {
+					for _, l := range []ast.Expr{rs.Key, rs.Value} {
+						if l != nil && identObj(info, l) == o {
+							assignedBefore = true
+						}
+					}
+				}
+				return true
+			})
+			if assignedBefore {
+				return true
 			}
-			return true
-		})
-		if assignedBefore {
-			return true
 		}
 		// the test itself must not come after (a later test says nothing about an earlier use) -- it still
 		// states the belief that nil is possible for this variable, which no assignment changes
